@@ -70,8 +70,14 @@ Definition prov_name (sh : option string) (rs : gset string) (n : name) : Prop :
   chan n = None /\
   ((is_self n = true /\ ident n ∈ rs) \/ (is_self n = false /\ sh = Some (ident n))).
 
+(* the annotation the checker leaves on every client occurrence: an unfolded type equal to the type
+   of the name (the interpreter reads it for the polarity of forwards, also of the forwards it
+   creates itself when a channel is dropped) *)
+Definition ann_ok (n : name) (t : sty) : Prop :=
+  exists t0, nty n = Some t0 /\ is_name t0 = false /\ teq t0 t.
+
 Definition client_ty (Δ : gmap cid sty) (Γ : gmap string sty) (sh : option string) (n : name) (t : sty) : Prop :=
-  is_self n = false /\
+  is_self n = false /\ ann_ok n t /\
   match chan n with
   | Some c => exists t', Δ !! c = Some t' /\ teq t' t
   | None => sh <> Some (ident n) /\ exists t', Γ !! ident n = Some t' /\ teq t' t
@@ -92,7 +98,7 @@ Definition covers (bs : brs) (b : branches) : Prop :=
 Definition args_ok (Δ : gmap cid sty) (Γ : gmap string sty) (sh : option string) (args ps : list name) : Prop :=
   Forall2 (fun a p => exists t, nty p = Some t /\ client_ty Δ Γ sh a t) args ps.
 
-(* ------------------------------------------------------------------ process bodies: the linear connective fragment
+(* ------------------------------------------------------------------ process bodies: the linear connectives and weakening (drop)
    typed Δ Γ sh rs s f : f provides s along its provider, using the channels of Δ and the variables of Γ *)
 Inductive typed (Δ : gmap cid sty) : gmap string sty -> option string -> gset string -> sty -> form -> Prop :=
 (* ⊗R : send self<pay, cont> *)
@@ -154,11 +160,16 @@ Inductive typed (Δ : gmap cid sty) : gmap string sty -> option string -> gset s
     typed Δ Γ sh rs s k ->
     typed Δ Γ sh rs s (FWait c k)
 (* id : fwd self from.  The interpreter reads the polarity off the annotation the checker left on
-   `from` (an unfolded type). *)
-| T_Fwd Γ sh rs s to from t0 :
+   `from` (an unfolded type: part of `client_ty`).  d = true: a droppable forward, created by the
+   interpreter only (drop / GC): it drops what it receives, or asks the provider to drop itself. *)
+| T_Fwd Γ sh rs s to from d :
     prov_name sh rs to -> client_ty Δ Γ sh from s ->
-    nty from = Some t0 -> is_name t0 = false -> teq t0 s ->
-    typed Δ Γ sh rs s (FFwd to from false)
+    typed Δ Γ sh rs s (FFwd to from d)
+(* weakening : drop c; k   (the interpreter spawns a droppable forward that reclaims the provider of c) *)
+| T_Drop Γ sh rs s c k T :
+    client_ty Δ Γ sh c T ->
+    typed Δ Γ sh rs s k ->
+    typed Δ Γ sh rs s (FDrop c k)
 (* call : f(args) / f(self, args) *)
 | T_Call Γ sh rs s fn args pt fd tf :
     get_function F fn (length args) = Some fd ->
@@ -231,13 +242,14 @@ Definition msg_typed (Δ : gmap cid sty) (k : cid) (m : msg) : Prop :=
   match m_rule m with
   | RSND => exists A B md, whd T (TTensor A B md) /\ chan_ty Δ (m_c1 m) A /\ chan_ty Δ (m_c2 m) B
   | RRCV => exists A B md, whd T (TLolli A B md) /\ chan_ty Δ (m_c1 m) A /\ prov_ty Δ (m_c2 m) B
-  | RSEL => exists bs md A, whd T (TPlus bs md) /\ find_br (m_label m) bs = Some A /\ chan_ty Δ (m_c1 m) A
+  | RSEL => exists bs md A, whd T (TPlus bs md) /\ find_br (m_label m) bs = Some A /\ chan_ty Δ (m_c1 m) A /\
+                            chan (m_c2 m) = None
   | RBRA => exists bs md A, whd T (TWith bs md) /\ find_br (m_label m) bs = Some A /\ prov_ty Δ (m_c1 m) A
-  | RCLS => exists md, whd T (TUnit md)
-  | RCST => exists fm tm A, whd T (TDown fm tm A) /\ chan_ty Δ (m_c1 m) A
+  | RCLS => exists md, whd T (TUnit md) /\ chan (m_c1 m) = None /\ chan (m_c2 m) = None
+  | RCST => exists fm tm A, whd T (TDown fm tm A) /\ chan_ty Δ (m_c1 m) A /\ chan (m_c2 m) = None
   | RSHF => exists fm tm A, whd T (TUp fm tm A) /\ prov_ty Δ (m_c1 m) A
   | RFWD => pol_of_ty T Neg /\ exists q, m_provs m = [q] /\ prov_ty Δ q T
-  | RGC => False       (* outside the linear fragment *)
+  | RGC => pol_of_ty T Neg       (* a request to the provider to drop itself *)
   end.
 
 (* linear fragment: exactly one provider *)
